@@ -153,7 +153,18 @@ class _Env:
             from paramiko.message import Message
             from paramiko.common import cMSG_NEWKEYS
             if act == "start-a-re-exchange":
-                t._send_kex_init()                      # the real one: clears clear_to_send under the lock, writes KEXINIT
+                real_send = t._send_message
+
+                def send(m, real_send=real_send):
+                    # the moment KEXINIT leaves: user threads must already be held back, or one of them can slip a
+                    # message in right behind it
+                    self.gate_open_when_kexinit_left = bool(t.clear_to_send.flag)
+                    return real_send(m)
+                t._send_message = send
+                try:
+                    t._send_kex_init()                  # the real one: clears clear_to_send under the lock, writes KEXINIT
+                finally:
+                    t._send_message = real_send
                 self.in_kex = True
             else:
                 m = Message()
@@ -227,6 +238,7 @@ def gating_case(tier):
             ctx.prove(sent_user == 0, "timed-out=>nothing-sent")
             ctx.reach("gave-up-after-clear_to_send_timeout")
         ctx.prove(not t.clear_to_send_lock.held, "clear_to_send_lock-released-on-every-way-out")
+        ctx.prove(not getattr(env, "gate_open_when_kexinit_left", False), "the-gate-is-closed-before-our-KEXINIT-leaves")
     return Case("user-thread-gating", fn,
                 ["user-message-never-leaves-between-our-KEXINIT-and-our-NEWKEYS", "queued-user-message-is-delivered-once-the-exchange-is-over",
                  "clear_to_send_lock-released-on-every-way-out"],
